@@ -43,7 +43,7 @@ NoDup(s) == Cardinality(Range(s)) = Len(s)
 Rec(name, args, ret, notes, o2, n2, v2) ==
   hist' = IF RecordHist
           THEN Append(hist, [act |-> [name |-> name] @@ args, ret |-> ret, notes |-> notes,
-                             obs |-> [objs |-> o2, names |-> n2, value |-> v2], kf |-> {}])
+                             obs |-> [objs |-> o2, names |-> n2, value |-> v2, h |-> hsnap'], kf |-> {}])
           ELSE hist
 
 Init == \E n \in 1..2 :
@@ -52,7 +52,7 @@ Init == \E n \in 1..2 :
               v == IF Multi THEN <<1>> ELSE 1 IN
           /\ objs = o /\ names = nm /\ nops = 0 /\ value = v /\ hsnap = NoH
           /\ hist = IF RecordHist THEN <<[act |-> [name |-> "init"], ret |-> 0, notes |-> 0,
-                                          obs |-> [objs |-> o, names |-> nm, value |-> v], kf |-> {}]>> ELSE <<>>
+                                          obs |-> [objs |-> o, names |-> nm, value |-> v, h |-> NoH], kf |-> {}]>> ELSE <<>>
 
 Step == nops < MaxOps /\ nops' = nops + 1
 Keep == UNCHANGED <<value, hsnap>>
@@ -89,6 +89,13 @@ PopVia(i) == /\ Step /\ hsnap # NoH /\ i \in 1..Len(objs) /\ i \in 1..Len(hsnap)
 AppendVia(x) == /\ Step /\ hsnap # NoH /\ ~DictDeclared /\ x \notin Range(objs) /\ Len(objs) < MaxLen
                 /\ objs' = Append(objs, x) /\ hsnap' = Append(hsnap, x) /\ UNCHANGED <<names, value>>
                 /\ Rec("appendvia", [x |-> x], 0, 1, objs', names, value)
+\* h.pop(key) through the kept handle (dictionary style): the named object leaves the current objects, the names and the handle
+PopKeyVia(k) == /\ Step /\ hsnap # NoH /\ DictDeclared /\ k \in KeysOf(names)
+                /\ LET i == KeyIndex(names, k) x == names[i][2] IN
+                   /\ x \in Range(hsnap)
+                   /\ objs' = RemoveAt(objs, i) /\ names' = RemoveAt(names, i)
+                   /\ hsnap' = RemoveAt(hsnap, IndexOf(hsnap, x)) /\ UNCHANGED value
+                   /\ Rec("popkeyvia", [k |-> k], x, 1, objs', names', value)
 \* ---- mutators valid for both styles ------------------------------------------------
 PopIndex(i) == /\ Step /\ i \in 1..Len(objs)
                /\ objs' = RemoveAt(objs, i)
@@ -170,7 +177,7 @@ Next == \/ \E x \in Objects : Append_(x) \/ Remove_(x) \/ SetValue(x)
         \/ PopLast \/ Clear_
         \/ \E k \in Keys, x \in Objects : SetKey(k, x)
         \/ \E prs \in Seqs(Pairs, 2), nkw \in 0..1 : (nkw <= Len(prs) /\ Update_(prs, nkw))
-        \/ \E k \in Keys : PopKey(k) \/ SetValueName(k) \/ \E x \in Objects : PopKeyDefault(k, x)
+        \/ \E k \in Keys : PopKey(k) \/ PopKeyVia(k) \/ SetValueName(k) \/ \E x \in Objects : PopKeyDefault(k, x)
 
 Spec == Init /\ [][Next]_vars
 
